@@ -38,10 +38,12 @@ def mtModAddr  : Addr := "mod:MT"
 
 /-- `sdk.AccAddressFromBech32` succeeds (the harness maps undecodable strings to `bad:…`,
     blank ones to `""`) -/
-def addrValid (a : Addr) : Bool := a != "" && !(a.startsWith "bad:") && a.trimAscii.toString != ""
+def addrValid (a : Addr) : Bool :=
+  a.toList != [] && !(hasPrefix "bad:".toList a.toList) && !(a.toList.all Char.isWhitespace)
 
-/-- blank after `strings.TrimSpace` -/
-def addrBlank (a : Addr) : Bool := a.trimAscii.toString == ""
+/-- blank after `strings.TrimSpace` (written over the character list so that the kernel can
+    evaluate it on literals) -/
+def addrBlank (a : Addr) : Bool := a.toList.all Char.isWhitespace
 
 section
 variable (H : Data → Digest) (Hc : Str → Str)
